@@ -91,6 +91,83 @@ def global_state_rule(ctx, rep, cl, functions):
     return n
 
 
+def _alias_roots(t, fields, depth=0):
+    """Parameters whose OBJECT the term may denote (no copy in between)."""
+    if not isinstance(t, tuple) or not t or depth > 8:
+        return set()
+    k = t[0]
+    if k == "param":
+        return {t[1]}
+    if k == "mut":
+        return _alias_roots(t[1], fields, depth + 1)
+    if k == "ifexp":
+        return _alias_roots(t[2], fields, depth + 1) | _alias_roots(t[3], fields, depth + 1)
+    if k == "boolop":
+        out = set()
+        for x in t[2]:
+            out |= _alias_roots(x, fields, depth + 1)
+        return out
+    if k == "attr" and t[1][0] == "param" and t[2] in fields:
+        return fields[t[2]]
+    return set()
+
+
+_INPLACE_OPS = {"|": "|=", "&": "&=", "^": "^=", "-": "-=", "+": "+="}
+
+
+def argument_mutation_rule(ctx, rep, cl, functions):
+    """A constructor / entry point leaves the objects it is GIVEN alone: every in-place mutation site (mutator method, subscript store,
+    augmented assignment) is resolved to the parameters whose object the receiver may be (through plain rebinding, conditional expressions,
+    `x or y`, and fields of self assigned earlier on the path); a copy (list(x), set(x), x[:], a comprehension, a + b) ends the alias."""
+    n_sites = 0
+    for f in functions:
+        rep.analysed(f)
+        self_name = f.params[0] if (f.cls is not None and f.params and not f.is_staticmethod) else None
+        bad = {}
+        for path in ctx.A.paths(f).paths:
+            if not path.feasible():
+                continue
+            fields = {}
+            for e, ls in walk_effects(path.effects):
+                recv = what = None
+                if e.kind == "store_attr" and e.a == ("param", self_name):
+                    v = e.c
+                    if isinstance(e.node, ast.AugAssign) and v[0] == "binop" and v[1] in _INPLACE_OPS and v[2] == ("attr", e.a, e.b):
+                        r = fields.get(e.b, set())
+                        if r and not (v[3][0] in ("const", "fstr")):
+                            n_sites += 1
+                            bad.setdefault((tuple(sorted(r)), "self.%s %s ..." % (e.b, _INPLACE_OPS[v[1]])), e.node)
+                        continue
+                    fields[e.b] = _alias_roots(v, fields)
+                    continue
+                if e.kind == "call" and e.a[1][0] == "attr" and e.a[1][2] in MUTATORS | {"__setitem__", "__ior__", "__iand__", "__iadd__"}:
+                    recv, what = e.a[1][1], ".%s(...)" % e.a[1][2]
+                elif e.kind == "store_sub":
+                    recv, what = e.a, "[...] = ..."
+                if recv is None:
+                    continue
+                n_sites += 1
+                r = _alias_roots(recv, fields) - ({self_name} if self_name else set())
+                if r:
+                    bad.setdefault((tuple(sorted(r)), what), e.node)
+            # a local name rebound to a mutation of the parameter object (`p |= x`, p.extend(x))
+            for pn in f.params:
+                if pn == self_name:
+                    continue
+                for name, v in path.env.items():
+                    if isinstance(v, tuple) and v and v[0] == "mut":
+                        r = _alias_roots(v, fields) - ({self_name} if self_name else set())
+                        if pn in r:
+                            bad.setdefault(((pn,), ".%s(...)" % v[2]), f.node)
+        for (roots, what), node in sorted(bad.items(), key=lambda kv: kv[0]):
+            rep.fail(cl + ".arguments-left-alone", "%s(%s)" % (f.qualname.split(".", 1)[-1], ",".join(roots)),
+                     "%s mutates the object given as %s in place (%s): the caller, and everything else holding that object (a later anonymizer built from the same arguments, another stage), sees the change" % (f.qualname, "/".join(roots), what),
+                     W(f, node), key="%s.arguments-left-alone|%s|%s" % (cl, f.name if f.cls is None else f.cls.name, ",".join(roots)))
+        if not bad:
+            rep.ob(cl + ".arguments-left-alone", f.qualname.split(".", 1)[-1], True, "no in-place mutation of an argument object", W(f), nontrivial=False)
+    rep.stat("argument_mutation_sites_examined", n_sites)
+
+
 def _set_typed(ctx, t, f):
     t0 = t
     if t[0] == "set" or (t[0] == "comp" and t[1] == "set"):
@@ -220,6 +297,8 @@ def c13(ctx, rep):
     rep.ob("C13.licensed-salt-generation", "FileAnonymizer.__init__", licensed >= 1, "the salt generation under `salt is None` was found (%d licensed sites)" % licensed, "", nontrivial=False)
     unordered_rule(ctx, rep, "C13", fns)
     global_state_rule(ctx, rep, "C13", fns)
+    # constructors and the file-level entry point leave the objects they are given alone
+    argument_mutation_rule(ctx, rep, "C13", [f for f in p.all_functions() if (f.cls is not None and f.name == "__init__") or (f.cls is None and f.name == "anonymize_files")])
     # class-level mutable attributes that instances share (even if only read today they are one edit from shared state)
     # 2. generated salt is reported and used
     f_fa = p.find_function("FileAnonymizer.__init__")
@@ -553,6 +632,8 @@ def _k3(ctx, rep, fns, av, k_counts):
                 key = (f.qualname, show(s))
                 atoms = path.atoms() + _expand_atoms(extra)
                 ok, why = _k3_discharge(ctx, f, s, base, idx, atoms, av)
+                if not ok and not extra and path.entails(("compare", ("in",), (idx, base)), True):
+                    ok, why = True, "the path conditions entail `key in mapping`"
                 if key in seen and ok:
                     continue
                 seen.add(key)
@@ -680,6 +761,8 @@ def _k3_discharge(ctx, f, s, base, idx, atoms, av):
     # juniper tables
     if f.module.name == JS and base[0] == "global" and base[2] in ("ALPHA_NUM", "EXTRA", "NUM_ALPHA", "ENCODING"):
         return _k3_juniper(ctx, f, base, idx, atoms)
+    if f.module.name == JS and f.name == "juniper_decrypt" and base == ("param", f.params[0]) and (M.builtin_call(idx, "len", 1) or (idx[0] == "const" and isinstance(idx[1], int) and 0 <= idx[1] <= 6)):
+        return True, "VALID (tested first) guarantees MAGIC plus at least four alphabet characters"
     if f.module.name == JS and base == ("param", "salt") and idx == ("const", 0):
         for t, pol in atoms:
             if t == ("param", "salt") and pol:
@@ -691,9 +774,15 @@ def _k3_discharge(ctx, f, s, base, idx, atoms, av):
 
 
 def _const_call(ctx, f, t):
-    """Fold f(const args) for a package function whose paths branch only on param == const tests and return constants."""
+    """Fold f(const args) for a package function (compile-time evaluation over constants)."""
     if not (M.is_call(t) and all(a[0] == "const" for a in t[2]) and not t[3]):
         return None
+    for tt in ctx.G.resolve_callee(t[1], f):
+        if tt[0] == "func":
+            try:
+                return ctx.folder.call_function(tt[1], [a[1] for a in t[2]], {})
+            except Unfoldable:
+                pass
     for tt in ctx.G.resolve_callee(t[1], f):
         if tt[0] != "func":
             continue
@@ -809,18 +898,12 @@ def c18(ctx, rep, with_k3=True):
     f_fc = p.find_function("_fixedc")
     rep.analysed(f_fc)
     got = {}
-    cp = ("param", f_fc.params[0])
-    for path in A.paths(f_fc).paths:
-        r = path.returned()
-        if path.kind != "return" or r[0] != "const":
-            rep.fail("C18.fixedc", "_fixedc", "returns %s" % show(r), W(f_fc))
-            continue
-        val = None
-        for t, pol in path.atoms():
-            if pol and t[0] == "compare" and t[1] == ("==",) and t[2][0] == cp and t[2][1][0] == "const":
-                val = t[2][1][1]
-        got[val] = r[1]
-    ok = all(isinstance(got.get(n), str) and len(got[n]) == n and set(got[n]) <= set(NUM_ALPHA) for n in (1, 2, 3)) and got.get(None) == ""
+    for n in (0, 1, 2, 3, 4):
+        try:
+            got[n if n in (1, 2, 3) else (None if n == 0 else n)] = folder.call_function(f_fc, [n], {})
+        except Unfoldable as e:
+            got[n] = "<does not fold: %s>" % e
+    ok = all(isinstance(got.get(n), str) and len(got[n]) == n and set(got[n]) <= set(NUM_ALPHA) for n in (1, 2, 3)) and got.get(None) == "" and got.get(4) == ""
     rep.ob("C18.fixedc", "_fixedc", ok, "_fixedc(n) returns %s; expected exactly n alphabet characters for n in 1..3 and '' otherwise" % got, W(f_fc), key="C18.fixedc|_fixedc")
     # weights
     rep.ob("C18.encoding-rows", "ENCODING", isinstance(ENCODING, list) and len(ENCODING) >= 1 and all(isinstance(r, list) and r for r in ENCODING), "ENCODING has %d rows" % (len(ENCODING) if isinstance(ENCODING, list) else -1), loc)
@@ -1007,8 +1090,10 @@ def _codec_structure(ctx, rep, NUM_ALPHA, EXTRA, ENCODING, fixedc):
         nib2 = ("call", g("_nibble"), (("sub", nib1, ("const", 1)), ("sub", g("EXTRA"), first)), ())
         pres = {n: pre for n, (pre, posts) in wl.carried.items()}
         # inner (per-character) loops may carry prev as well: look through nested carried placeholders
-        rest_var = [n for n, pre in pres.items() if pre == ("sub", nib2, ("const", 1))]
-        prev_var = [n for n, pre in pres.items() if pre == first]
+        first_b = ("sub", crypt, ln(g("MAGIC")))
+        rest_b = ("sub", crypt, ("slice", ("binop", "+", ("binop", "+", ln(g("MAGIC")), ("const", 1)), ("sub", g("EXTRA"), first_b)), None, None))
+        rest_var = [n for n, pre in pres.items() if pre in (("sub", nib2, ("const", 1)), rest_b)]
+        prev_var = [n for n, pre in pres.items() if pre in (first, first_b)]
         pre_ok = len(rest_var) == 1 and len(prev_var) == 1 and wl.test == ("carried", rest_var[0], wl.uid)
         rep.ob("C18.decode-prelude", "juniper_decrypt", pre_ok, "before the group loop: MAGIC removed, prev = the salt character, EXTRA[salt] fillers skipped, loop runs while characters remain (%s)" % {n: show(v)[:60] for n, v in pres.items()}, W(f_dec, wl.node), key="C18.decode-prelude|juniper_decrypt")
         dec_name = [n for n, (pre, posts) in wl.carried.items() if pre in (("const", ""), ("list", ()))]
